@@ -55,3 +55,19 @@ pub uninterp spec fn kw_value(k: Kwargs, name: Seq<char>) -> Result<Option<Value
 pub fn vx_kw_value(k: &Kwargs, name: &str) -> (r: TeraResult<Option<Value>>)
     ensures r is Ok <==> kw_value(*k, name@) is Ok, r is Ok ==> r->Ok_0 == kw_value(*k, name@)->Ok_0
 { unimplemented!() }
+pub uninterp spec fn kind_map(v: Value) -> bool;
+pub uninterp spec fn kind_array(v: Value) -> bool;
+pub uninterp spec fn kind_string(v: Value) -> bool;
+pub uninterp spec fn kind_bytes(v: Value) -> bool;
+pub uninterp spec fn kind_undefined(v: Value) -> bool;
+pub uninterp spec fn kind_number(v: Value) -> bool;
+pub uninterp spec fn kind_f64(v: Value) -> bool;
+impl Value {
+    #[verifier::external_body] pub fn is_map(&self) -> (r: bool) ensures r == kind_map(*self) { unimplemented!() }
+    #[verifier::external_body] pub fn is_array(&self) -> (r: bool) ensures r == kind_array(*self) { unimplemented!() }
+    #[verifier::external_body] pub fn is_string(&self) -> (r: bool) ensures r == kind_string(*self) { unimplemented!() }
+    #[verifier::external_body] pub fn is_bytes(&self) -> (r: bool) ensures r == kind_bytes(*self) { unimplemented!() }
+    #[verifier::external_body] pub fn is_undefined(&self) -> (r: bool) ensures r == kind_undefined(*self) { unimplemented!() }
+    #[verifier::external_body] pub fn is_number(&self) -> (r: bool) ensures r == kind_number(*self) { unimplemented!() }
+    #[verifier::external_body] pub fn is_f64(&self) -> (r: bool) ensures r == kind_f64(*self) { unimplemented!() }
+}
